@@ -488,10 +488,20 @@ func (s *solo) onRelease(m *rpcbench.WireMsg, t int64) {
 	}
 	e.refs -= int(m.RefCount)
 	e.releases++
-	// never while a local reference is definitely live
+	// Never while a local reference is definitely live.  The moment the
+	// Conn gives an import up is when importClient.Shutdown deletes the
+	// table entry, which is not observable; the Release is written later
+	// (it may wait for the sender lock) and carries the count of *that*
+	// entry.  A reference obtained between the two belongs to a new entry,
+	// so "handle acquired before the Release was written" alone proves
+	// nothing (false alarm C07-cc7caa00fb-s1-i10294).  What is established by
+	// ordered facts: if this Release gives back every reference the peer has
+	// ever sent and not yet got back, the reference a still-held handle
+	// stands for is among them.  (Partial cases are judged exactly at the
+	// next quiescent point by the import-table comparison.)
 	t0 := s.stampOf(rpcbench.EvSendBegin, m)
 	for _, h := range s.w.Handles() {
-		if s.handlePexp[h.ID] != e {
+		if s.handlePexp[h.ID] != e || e.refs > 0 {
 			continue
 		}
 		acq := h.AcqT
